@@ -10,6 +10,7 @@ import (
 	"encoding/json"
 	"os"
 	"path/filepath"
+	"strconv"
 	"strings"
 	"testing"
 	"time"
@@ -64,3 +65,26 @@ func FuzzC11(f *testing.F) {
 }
 
 var _ = py.ExecMode
+
+func init() {
+	// a crasher saved by the native fuzzer itself (the worker died before the target could report): corpus file format
+	replayers["fuzz-crasher"] = func(c *Case) (string, string, error) {
+		var src string
+		mode := c11Modes[0]
+		for _, line := range strings.Split(c.Program, "\n") {
+			line = strings.TrimSpace(line)
+			if strings.HasPrefix(line, "string(") && strings.HasSuffix(line, ")") {
+				if s, err := strconv.Unquote(line[len("string(") : len(line)-1]); err == nil {
+					src = s
+				}
+			}
+			if strings.HasPrefix(line, "byte(") && strings.HasSuffix(line, ")") {
+				if s, err := strconv.Unquote(line[len("byte(") : len(line)-1]); err == nil && len(s) > 0 {
+					mode = c11Modes[int(s[0])%len(c11Modes)]
+				}
+			}
+		}
+		sig, detail, _ := c11Judge(src, mode, 60*time.Second)
+		return sig, detail, nil
+	}
+}
